@@ -7,7 +7,7 @@
 (* with two exclusive devices that each consume a pool counter, one shared  *)
 (* device with a capacity, optionally already allocated in the cluster;     *)
 (* per-instance-type templates (type A: one exclusive device, type B: two,  *)
-(* plus a shared template device); NCs NodeClaims superposed over the types *)
+(* each plus a shared template device); NodeClaims superposed over the types *)
 (* {A, B}; claims of five kinds (one / two exclusive in-cluster devices, a  *)
 (* share of 2 or 3 of the shared device, a template device, a share of the  *)
 (* shared template device).                                                  *)
@@ -26,7 +26,7 @@
 (* of DRAGuards.tla in every reachable state.  W_* switches weaken one      *)
 (* mechanism conjunct each (DRA_Weak*.cfg); TLC must then violate.          *)
 (***************************************************************************)
-EXTENDS DRAGuards
+EXTENDS DRAGuards, Json
 
 CONSTANTS
     NCs,          \* NodeClaim ids, e.g. {"N1", "N2"}
@@ -57,19 +57,21 @@ World(kinds, pre, slots) ==
     [slices |-> <<[name |-> "s1", driver |-> "net", pool |-> "np", slots |-> 0, devices |-> <<Dev("n0", FALSE, 0, IF slots > 0 THEN 1 ELSE 0), Dev("n1", FALSE, 0, IF slots > 0 THEN 1 ELSE 0)>>],
                   [name |-> "s2", driver |-> "shm", pool |-> "sp", slots |-> 0, devices |-> <<Dev("m0", TRUE, 5, 0)>>]>>
                 \o (IF slots > 0 THEN <<[name |-> "s3", driver |-> "net", pool |-> "np", slots |-> slots, devices |-> <<>>]>> ELSE <<>>),
-     templates |-> <<[type |-> "A", driver |-> "gpu", pool |-> "g", slots |-> 0, devices |-> <<Dev("g0", FALSE, 0, 0), Dev("t0", TRUE, 4, 0)>>],
-                     [type |-> "B", driver |-> "gpu", pool |-> "g", slots |-> 0, devices |-> <<Dev("g0", FALSE, 0, 0), Dev("g1", FALSE, 0, 0), Dev("t0", TRUE, 4, 0)>>]>>,
+     templates |-> <<[type |-> "A", driver |-> "gpu", pool |-> "g", slots |-> 0, devices |-> <<Dev("g0", FALSE, 0, 0)>>],
+                     [type |-> "A", driver |-> "tshm", pool |-> "tp", slots |-> 0, devices |-> <<Dev("t0", TRUE, 4, 0)>>],
+                     [type |-> "B", driver |-> "gpu", pool |-> "g", slots |-> 0, devices |-> <<Dev("g0", FALSE, 0, 0), Dev("g1", FALSE, 0, 0)>>],
+                     [type |-> "B", driver |-> "tshm", pool |-> "tp", slots |-> 0, devices |-> <<Dev("t0", TRUE, 4, 0)>>]>>,
      claims |-> [i \in 1..NClaims |-> Claim(i, kinds[i])] \o PreClaim(pre)]
 KindSeqs == {s \in [1..NClaims -> Kinds] : TRUE}
 
 \* what a kind asks for: candidate device keys (in-cluster or template of type t), how many, consumed share
-KDriver(kind) == CASE kind \in {"net", "net2"} -> "net" [] kind \in {"shm2", "shm3"} -> "shm" [] OTHER -> "gpu"
+KDriver(kind) == CASE kind \in {"net", "net2"} -> "net" [] kind \in {"shm2", "shm3"} -> "shm" [] kind = "tshm" -> "tshm" [] OTHER -> "gpu"
 KCount(kind) == IF kind = "net2" THEN 2 ELSE 1
 KShare(kind) == CASE kind = "shm2" -> 2 [] kind = "shm3" -> 3 [] kind = "tshm" -> 3 [] OTHER -> 0
 KTemplate(kind) == kind \in {"gpu", "tshm"}
 KMulti(kind) == kind \in {"shm2", "shm3", "tshm"}
 Cands(kind, t) ==
-    IF KTemplate(kind) THEN {k \in TplDevKeys(dra, t) : k[1] = KDriver(kind) /\ TplDev(dra, t, k).multi = KMulti(kind)}
+    IF KTemplate(kind) THEN {k \in TplDevKeys(dra, t) : k[1] = KDriver(kind)}
     ELSE {k \in InDevKeys(dra) : k[1] = KDriver(kind)}
 
 ClaimNames == {dra.claims[i].name : i \in {j \in DOMAIN dra.claims : dra.claims[j].alloc = <<>>}}
@@ -168,6 +170,10 @@ Next ==
     \/ \E nc \in NCs, t \in Types : Prune(nc, t)
     \/ \E nc \in NCs, t \in Types : Drop(nc, t)
 Spec == Init /\ [][Next]_vars
+
+\* world generation: only the initial states, the `dra` section printed as JSON (checks/dra_common.py wraps it into a scenario)
+GenSpec == Init /\ [][FALSE]_vars
+GenPrint == PrintT(<<"BEH", ToJson(dra)>>)
 
 ----------------------------------------------------------------------------
 (* invariants: the counting oracle per resolution, on the state as the Results would report it *)
